@@ -9,6 +9,7 @@
  *     three    T1 = op1(S1,S2); T2 = op2(S1,T1); D1 = op3(T2,T1)
  *     param    T1 = op1(S1,P1); D1 = op2(T1,C1)
  *     acc      T1 = op1(S1,S2); D1 = copy(T1);   A1 += T1
+ *     pwide    D1 = op1(S1,P1) at width w; D2 = op2(S2,P1) at width w/2 (pnarrow: the other order)
  *     rewrite  T1 = op1(S1,S2); T1 = op2(T1,S1); T1 = op3(T1,S2); D1 = copy(T1)
  * Every program is run for several (n, m, misalignment, stride) on one executor that is reused
  * between runs; each run is one Prog event with the program, inputs and outputs as raw bytes
@@ -54,6 +55,14 @@ describe (Desc *d, const char *tpl, int w, const char *o1, const char *o2, const
   else if (!strcmp (tpl, "repeat")) { addi (d, o1, T1, -1, S1, S1); addi (d, o2, D1, -1, T1, T1); }
   else if (!strcmp (tpl, "three")) { addi (d, o1, T1, -1, S1, S2); addi (d, o2, T2, -1, S1, T1); addi (d, o3, D1, -1, T2, T1); }
   else if (!strcmp (tpl, "param")) { addi (d, o1, T1, -1, S1, P1); addi (d, o2, D1, -1, T1, C1); }
+  /* one parameter used at two widths in one program: P1 has the wide width w, o1 is a w-wide opcode, o2 one of
+   * half that width working on its own, narrower arrays (D2, S2); wide use first, or narrow use first */
+  else if (!strcmp (tpl, "pwide") || !strcmp (tpl, "pnarrow")) {
+    if (mult != 1 || w < 2) return 0;
+    addv (d, D2, 'd', w / 2); addv (d, S2, 's', w / 2);
+    if (tpl[1] == 'w') { addi (d, o1, D1, -1, S1, P1); addi (d, o2, D2, -1, S2, P1); }
+    else { addi (d, o2, D2, -1, S2, P1); addi (d, o1, D1, -1, S1, P1); }
+  }
   else if (!strcmp (tpl, "acc")) { addi (d, o1, T1, -1, S1, S2); addi (d, copyop (w), D1, -1, T1, -1); addi (d, w == 2 ? "accw" : "accl", A1, -1, T1, -1); }
   else if (!strcmp (tpl, "rewrite")) { addi (d, o1, T1, -1, S1, S2); addi (d, o2, T1, -1, T1, S1); addi (d, o3, T1, -1, T1, S2); addi (d, copyop (w), D1, -1, T1, -1); }
   else return 0;
@@ -196,13 +205,15 @@ do_line (const char *path, char *line)
       Var *va = &d.vars[v];
       hb_printf (&vars, "%s[%d,\"%c\",%d]", v ? "," : "", va->slot, va->kind, va->size);
       if (va->kind == 'd' || va->kind == 's') {
-        orc_uint8 *base = mem[va->slot % 8] + 256 + off * e;
+        /* an array narrower than the program's element (pwide / pnarrow) scales offset, row and stride */
+        int ve = va->size, vstride = stride / e * ve, vrow = n * ve, vw = ve < e ? ve : w, vmult = ve < e ? 1 : mult;
+        orc_uint8 *base = mem[va->slot % 8] + 256 + off * ve;
         memset (mem[va->slot % 8], 0xa5, BUF);
-        for (k = 0; k < m; k++) { int j, l; for (j = 0; j < n; j++) for (l = 0; l < mult; l++) put (base + k * stride + j * e + l * w, w, pick (&r, w)); }
+        for (k = 0; k < m; k++) { int j, l; for (j = 0; j < n; j++) for (l = 0; l < vmult; l++) put (base + k * vstride + j * ve + l * vw, vw, pick (&r, vw)); }
         ex.arrays[va->slot] = base;
-        ex.params[va->slot] = stride;
+        ex.params[va->slot] = vstride;
         hb_printf (&ins, "%s[%d,", ins.n ? "," : "", va->slot);
-        rows_json (&ins, base, stride, m, rowbytes);
+        rows_json (&ins, base, vstride, m, vrow);
         hb_printf (&ins, "]");
       } else if (va->kind == 'c') {
         orc_uint8 t8[8]; put (t8, w, d.cval);
@@ -223,15 +234,16 @@ do_line (const char *path, char *line)
     for (v = 0; v < d.n_vars; v++) {
       Var *va = &d.vars[v];
       if (va->kind == 'd') {
-        orc_uint8 *base = mem[va->slot % 8] + 256 + off * e;
+        int ve = va->size, vstride = stride / e * ve, vrow = n * ve;
+        orc_uint8 *base = mem[va->slot % 8] + 256 + off * ve;
         int pos;
         hb_printf (&outs, "%s[%d,", outs.n ? "," : "", va->slot);
-        rows_json (&outs, base, stride, m, rowbytes);
+        rows_json (&outs, base, vstride, m, vrow);
         hb_printf (&outs, "]");
         /* everything outside the rows must still be 0xa5 */
-        for (pos = 0; pos < 256 + off * e + m * stride + 64 && pos < BUF; pos++) {
-          int rel = pos - (256 + off * e), inrow = 0;
-          if (rel >= 0 && rel < m * stride && (rel % stride) < rowbytes) inrow = 1;
+        for (pos = 0; pos < 256 + off * ve + m * vstride + 64 && pos < BUF; pos++) {
+          int rel = pos - (256 + off * ve), inrow = 0;
+          if (rel >= 0 && rel < m * vstride && (rel % vstride) < vrow) inrow = 1;
           if (!inrow && mem[va->slot % 8][pos] != 0xa5) fence = 0;
         }
       } else if (va->kind == 'a') {
